@@ -98,8 +98,12 @@ class Run:
                 break           # the rule modules stopped early (see run_rules): floors say nothing about rules that never ran
             # a rule that already reports a violation may have stopped judging early: its floor is not applicable
             if r["judged"] < r["floor"] and rid not in reported_rules:
-                raise AnalysisError("rule %s judged %d instance(s), below its floor of %d (%s): the anchors it "
-                                    "looks for have changed shape" % (rid, r["judged"], r["floor"], r["desc"]))
+                msg = "rule %s judged %d instance(s), below its floor of %d (%s): the anchors it looks for have changed shape" % (rid, r["judged"], r["floor"], r["desc"])
+                if self.new_violations():
+                    # a violation another rule has established stays a violation; this rule's verdict is simply missing
+                    self.notes.append("not decided: " + msg[:300])
+                    continue
+                raise AnalysisError(msg)
         known = [k for k in load_known() if k.get("property") == self.prop]
         known_active = {}
         for k in known:
